@@ -169,7 +169,7 @@ func TestVerifC38Groups(t *testing.T) {
 	gidStr := []string{gids[0].String(), gids[1].String()}
 	peerStr := []string{peers[0].String(), peers[1].String(), peers[2].String()}
 
-	mc.Run(t, mc.Config{ID: "C38", Name: "C38-groups-opseq", MaxDev: -1, Params: map[string]interface{}{
+	mc.Run(t, mc.Config{ID: "C38", Name: "C38-groups-opseq", MaxDev: -1, ShardLevels: mc.EnvInt("VERIF_C38_SHARDLEVELS", 1), Params: map[string]interface{}{
 		"depth": depth, "peers": peerNames, "groups": "G (joined), H (known)",
 		"alphabet": "add(G,p,keep) x6 | remove(G,p,intoKnown) x6 | fill(G: add 22 further known peers) | pruneKnown(G) | updatePeerGroupsJoin(p, {[],[G],[H],[G,H]}) x12 | flipNeighbour(p) x3 | disconnectEffect(p) x3",
 		"max_known": maxKnownPeers, "fill": nFill}},
@@ -587,6 +587,8 @@ func TestVerifC38Flood(t *testing.T) {
 	twoMsgMaxEdges := mc.EnvInt("VERIF_C38_TWOMSG_EDGES", 3)
 	// two interleaved floods multiply the state space: fewer deviations there
 	twoMsgDev := mc.EnvInt("VERIF_C38_TWOMSG_DEV", mc.Pick(1, 2))
+	// ... and on dense topologies (>= 6 edges)
+	denseDev := mc.EnvInt("VERIF_C38_DENSE_DEV", 2)
 	twoMsgMaxNodes := mc.EnvInt("VERIF_C38_TWOMSG_NODES", mc.Pick(3, 4))
 	// per delivery: 0 deliver, 1 deliver and leave a duplicate in flight, 2 drop.
 	// A drop is the same as delaying the message beyond the end of the run as far
@@ -619,9 +621,9 @@ func TestVerifC38Flood(t *testing.T) {
 	for _, tp := range c38Topos[topo0:nTopo] {
 		topoNames = append(topoNames, tp.name)
 	}
-	mc.Run(t, mc.Config{ID: "C38", Name: "C38-flood-netsim", MaxDev: maxDev, Params: map[string]interface{}{
+	mc.Run(t, mc.Config{ID: "C38", Name: "C38-flood-netsim", MaxDev: maxDev, ShardLevels: 1, Params: map[string]interface{}{
 		"topologies": topoNames, "configurations": len(configs), "variants": c38Variants, "messages": fmt.Sprintf("1..%d (second one only when edges<=%d and nodes<=%d), originated at any node, the second at any point of the run", maxMsgs, twoMsgMaxEdges, twoMsgMaxNodes),
-		"per_delivery": []string{"deliver", "deliver and keep a network duplicate in flight (1 deviation)", "drop (1 deviation)"}[:fates], "max_deviations": maxDev, "max_deviations_with_two_messages": twoMsgDev,
+		"per_delivery": []string{"deliver", "deliver and keep a network duplicate in flight (1 deviation)", "drop (1 deviation)"}[:fates], "max_deviations": maxDev, "max_deviations_with_two_messages": twoMsgDev, "max_deviations_with_6_or_more_edges": denseDev,
 		"delivery_order": "every order of the distinct in-flight messages"}},
 		func(x *mc.X) {
 			orig := cache
@@ -718,6 +720,13 @@ func TestVerifC38Flood(t *testing.T) {
 			// such flood trips node-forwarded-message-twice first)
 			maxSteps := 4*msgs*2*len(tp.edges) + maxDev + msgs + 2
 			dropped, dups, devUsed := 0, 0, 0
+			devCap := maxDev
+			if msgs == 2 && twoMsgDev < devCap {
+				devCap = twoMsgDev
+			}
+			if len(tp.edges) >= 6 && denseDev < devCap {
+				devCap = denseDev
+			}
 			step := 0
 			for ; ; step++ {
 				// distinct in-flight messages, sorted
@@ -749,7 +758,7 @@ func TestVerifC38Flood(t *testing.T) {
 					mi := distinct[c]
 					m := net.inflight[mi]
 					fate := 0
-					if msgs == 1 || devUsed < twoMsgDev {
+					if devUsed < devCap {
 						fate = x.Deviate(fates)
 					}
 					if fate != 0 {
